@@ -244,6 +244,42 @@ func (s *Sess) SendBarrier(m *spb.ModifyRequest) ([]*spb.ModifyResponse, error) 
 	}
 }
 
+// PushClose sends m and half-closes at once, without waiting for the responses (a client that sends its last
+// request and closes); it returns every response that was written until the RPC returned (and shortly after: the
+// response being written at that moment).
+func (s *Sess) PushClose(m *spb.ModifyRequest) ([]*spb.ModifyResponse, error) {
+	if !s.Live() {
+		return nil, nil
+	}
+	ok, err := s.push(m)
+	if err != nil || !ok {
+		return nil, err
+	}
+	s.closed = true
+	close(s.f.in)
+	var got []*spb.ModifyResponse
+	t := time.After(Watchdog)
+	for {
+		select {
+		case r := <-s.f.out:
+			got = append(got, r)
+		case err := <-s.done:
+			s.Ended = endOf(err)
+			grace := time.After(100 * time.Millisecond)
+			for {
+				select {
+				case r := <-s.f.out:
+					got = append(got, r)
+				case <-grace:
+					return got, nil
+				}
+			}
+		case <-t:
+			return got, fmt.Errorf("HANG: RPC did not return within %v", Watchdog)
+		}
+	}
+}
+
 // HalfClose ends the request stream cleanly and waits for the RPC to return.
 func (s *Sess) HalfClose() error {
 	if !s.Live() {
